@@ -209,6 +209,9 @@ theorem c10_encryptToRecipient_roundtrip {K : Kem} {S : Sealer} (LA : AeadLaws A
     decryptToRecipient h A K k r = .ok e ∧
       ∀ k', k' ≠ k → decryptToRecipient h A K k' r = .err "UnknownRecipient" := by
   have hr' : encryptSubjectToRecipients h A ck n (sealsFor S ck [(k, rnd)]) (wrap h e) = .ok r := by
+    have hs : sealsFor S ck [(k, rnd)] = [S.sealTo k (symmetricKeyCbor ck).enc rnd] := by
+      simp only [sealsFor, List.map_cons, List.map_nil]
+    rw [hs]
     unfold encryptToRecipient at hr
     cases hx : encryptSubjectToRecipients h A ck n [S.sealTo k (symmetricKeyCbor ck).enc rnd]
         (wrap h e) with
